@@ -3,6 +3,19 @@ import GolibsVerif.Model.C19
 import GolibsVerif.Model.C19Lts
 import GolibsVerif.Spec.C19
 
+/-!
+C19 — driver ops (the case lines are documented at the top of `harness/c19.go`).
+
+  C19.tree <lvl> <attrs> <recs> <script> <oracle>
+      lvl     <int>   the options hold the constant `slog.Level` (`Leveler.const`)
+              v<int>  the options hold a `*slog.LevelVar` with that value (`Leveler.var`); the root
+                      is `newHandler`, i.e. the code's constructor, which reads the variable once
+      script  W<parent>:<ids|->  H<node>:<rid>  E<node>:<level>  L<level> (= `levelVar.Set`; always
+              legal; without effect on the answers of the handlers the code makes)
+    answer: per op "w" | hex of the emitted line | true/false | "l"
+  C19.conc <G> <K> <R> <oracle>, C19.jsonenc <sevhex> <msghex>
+-/
+
 namespace GolibsVerif.Driver.C19
 open GolibsVerif GolibsVerif.C19 GolibsVerif.Driver
 
@@ -45,9 +58,18 @@ def buildRecs (tbl : List Attr) : Heap → Nat → List String → Option (Heap 
     let (hp2, rs) ← buildRecs tbl hp1 (rid + 1) rest
     pure (hp2, r :: rs)
 
+/-- `<int>` = a constant level, `v<int>` = a `*slog.LevelVar` holding that value; the second
+component is the initial value of the world's LevelVar (0, as `new(slog.LevelVar)`, when the
+root does not use it) -/
+def parseLeveler (s : String) : Option (Leveler × Int) :=
+  if s.startsWith "v" then (parseInt? (s.drop 1).toString).map fun l => (Leveler.var, l)
+  else (parseInt? s).map fun l => (Leveler.const l, 0)
+
 def parseOp (tbl : List Attr) (s : String) : Option Op :=
   let body := (s.drop 1).toString
   match body.splitOn ":" with
+  | [a] =>
+    if s.startsWith "L" then (parseInt? a).map Op.setLevel else none
   | [a, b] =>
     if s.startsWith "W" then do
       let p ← a.toNat?
@@ -96,15 +118,16 @@ def showOut : Out → String
   | .line b => if isInfix missMark b then "ORACLE-MISS" else hexEncode b
   | .panic p => showPanic p
   | .en b => showBool b
+  | .set => "l"
 
 def tree (args : List String) : String :=
   match args with
   | [lvl, attrs, recs, script, oracle] =>
-    match parseInt? lvl, parseAttrs attrs, parseOracle oracle with
-    | some l, some tbl, some orc =>
+    match parseLeveler lvl, parseAttrs attrs, parseOracle oracle with
+    | some (l, lv0), some tbl, some orc =>
       match buildRecs tbl [] 0 (splitList recs ","), allSome ((splitList script ",").map (parseOp tbl)) with
       | some (hp, rs), some ops =>
-        match World.run polDrv (textOf orc) goJsonEncode rs { heap := hp, handlers := [newHandler l] } ops with
+        match World.run polDrv (textOf orc) goJsonEncode rs { heap := hp, handlers := [newHandler l lv0], lvar := lv0 } ops with
         | some (_, outs) => if outs.isEmpty then "-" else joinWith "," (outs.map showOut)
         | none => "bad-op"
       | _, _ => "bad-op"
